@@ -134,3 +134,15 @@ package gera
 //@   property C14
 //@   modifies nothing
 //@   ensures fresh(r) && r.parent == nil && r.theMap == fromMap
+
+// Copy: a new level with its own backing map holding the same entries, attached to the same parent
+//@ func (w *WrapMap[K, V]) Copy() (r Map[K, V])
+//@   property C14
+//@   modifies nothing
+//@   loop 1 invariant fresh(newMap) && newMap.parent == w.parent && fresh(newMap.theMap) && newMap.theMap != nil
+//@   loop 1 invariant forall k K :: #visited[k] ==> (k in newMap.theMap) && newMap.theMap[k] == w.theMap[k]
+//@   loop 1 invariant forall k K :: (k in newMap.theMap) ==> (k in w.theMap) && newMap.theMap[k] == w.theMap[k]
+//@   ensures w == nil ==> r == nil
+//@   ensures w != nil ==> r is *WrapMap && r.(*WrapMap) != nil && fresh(r.(*WrapMap)) && r.(*WrapMap).parent == w.parent && fresh(r.(*WrapMap).theMap)
+//@   ensures w != nil ==> forall k K :: (k in w.theMap) ==> (k in r.(*WrapMap).theMap)
+//@   ensures w != nil ==> forall k K :: (k in r.(*WrapMap).theMap) ==> (k in w.theMap) && r.(*WrapMap).theMap[k] == w.theMap[k]
